@@ -179,8 +179,14 @@ def c16_3(ctx):
     org = [i for i in wr if to_cnf(i.test, True, rm) == [frozenset({lit_cmp(ctx, mh, f'{cnt} != 0', rm)})] and any(('isinstance', L, 'AddressOrgLine', True) in c for c in facts_at(ctx, mh, i, rm))]
     ok = len(org) == 1 and [unparse(s) for s in org[0].body] == ["output.write('\\n')", f'{cnt} = 0']
     ctx.check(ok, 'minhex:open-row-closed-before-address', mh.site(org[0]) if org else mh.site(), 'an open row is closed before an address record is written', '')
-    aw = [c for c in ast.walk(loops[0]) if isinstance(c, ast.Call) and unparse(c.func) == 'output.write' and 'addr' in unparse(c)]
-    ok = len(aw) == 1 and f'addr={L}.address' in unparse(aw[0]) and unparse(aw[0]).count('\\n') == 1
+    from engine.helpers import fmt_view
+    aw = [c for c in ast.walk(loops[0]) if isinstance(c, ast.Call) and unparse(c.func) == 'output.write' and c.args and f'{L}.address' in unparse(c)]
+    ok = len(aw) == 1
+    if ok:
+        fv = fmt_view(aw[0].args[0])
+        fields = [p for p in (fv or []) if p[0] == 'field']
+        lits = ''.join(p[1] for p in (fv or []) if p[0] == 'lit')
+        ok = fv is not None and len(fields) == 1 and unparse(fields[0][1]) == f'{L}.address' and fields[0][2].endswith('x') and lits == '\n' and fv[-1] == ('lit', '\n')
     ctx.check(ok, 'minhex:address-record', mh.site(aw[0]) if aw else mh.site(), 'an address record is the .org line\'s own address on a line of its own', '; '.join(unparse(a) for a in aw))
     inc = [n for n in ast.walk(loops[0]) if isinstance(n, ast.AugAssign) and unparse(n.target) == cnt]
     ok = len(inc) == 1 and unparse(inc[0].value) == '1' and isinstance(inc[0].op, ast.Add)
